@@ -259,7 +259,7 @@ class DB:
         with only their facets.
         """
         fcoll = DB()
-        tofacet = re.compile(r"^([^:]+).+")
+        tofacet = re.compile(r"^([^:]+).*")
         for pkg, tags in self.iter_packages_tags():
             ftags = {tofacet.sub(r"\1", t) for t in tags}
             fcoll.insert(pkg, ftags)
